@@ -152,29 +152,12 @@ def Good (r : Outcome × State) : Prop := (∀ s, r.1 ≠ .panic s) ∧ Inv r.2
 theorem good_ok {σ : State} (h : Inv σ) : Good (.ok, σ) := ⟨by intro s; simp, h⟩
 theorem good_disc {σ : State} (h : Inv σ) (e : SessErr) : Good (.disconnect e, σ) := ⟨by intro s; simp, h⟩
 
-theorem handleAnnouncement_ok (env : Env) {σ : State} (h : Inv σ) (a : Announcement) :
-    Good (handleAnnouncement Code.current env σ a) := by
-  unfold handleAnnouncement
-  by_cases h1 : (!a.sigOk) = true
-  · rw [if_pos h1]; exact good_disc h _
-  rw [if_neg h1]
-  by_cases h2 : a.announcer = σ.self
-  · rw [if_pos h2]; exact good_ok h
-  rw [if_neg h2]
-  by_cases h3 : (Code.current.zeroTimestampGuard && a.timestamp == 0) = true
-  · rw [if_pos h3]; exact good_disc h _
-  rw [if_neg h3]
-  have hts : a.timestamp ≠ 0 := by
-    intro e; apply h3; simp [Code.current, e]
-  by_cases h4 : MAX_TIME_DELTA < a.timestamp - σ.now
-  · rw [if_pos h4]; exact good_disc h _
-  rw [if_neg h4]
-  by_cases h5 : unknownIgnored env a = true
-  · rw [if_pos h5]; exact good_ok h
-  rw [if_neg h5, if_neg hts]
-  by_cases h6 : (!env.announcedFresh) = true
-  · rw [if_pos h6]; exact good_ok h
-  rw [if_neg h6]
+theorem stored_inv {σ : State} (h : Inv σ) (a : Announcement) : Inv (stored σ a) :=
+  ⟨h.ids, h.fetching, h.clock⟩
+
+theorem processStored_ok (env : Env) {σ : State} (h : Inv σ) (a : Announcement) :
+    Good (processStored env σ a) := by
+  unfold processStored
   cases a.kind with
   | node seed => exact good_ok h
   | inventory rids =>
@@ -209,6 +192,34 @@ theorem handleAnnouncement_ok (env : Env) {σ : State} (h : Inv σ) (a : Announc
       rw [hok]
       exact good_ok hi
 
+/-- Only the first two fields of `Code` are read by the message-handling path. -/
+def Code.msgLike (c : Code) : Prop := c.zeroTimestampGuard = true ∧ c.filteredAsserts = false
+
+theorem handleAnnouncement_ok (c : Code) (hc : c.msgLike) (env : Env) {σ : State} (h : Inv σ) (a : Announcement) :
+    Good (handleAnnouncement c env σ a) := by
+  unfold handleAnnouncement
+  by_cases h1 : (!a.sigOk) = true
+  · rw [if_pos h1]; exact good_disc h _
+  rw [if_neg h1]
+  by_cases h2 : a.announcer = σ.self
+  · rw [if_pos h2]; exact good_ok h
+  rw [if_neg h2]
+  by_cases h3 : (c.zeroTimestampGuard && a.timestamp == 0) = true
+  · rw [if_pos h3]; exact good_disc h _
+  rw [if_neg h3]
+  have hts : a.timestamp ≠ 0 := by
+    intro e; apply h3; simp [hc.1, e]
+  by_cases h4 : MAX_TIME_DELTA < a.timestamp - σ.now
+  · rw [if_pos h4]; exact good_disc h _
+  rw [if_neg h4]
+  by_cases h5 : unknownIgnored env σ a = true
+  · rw [if_pos h5]; exact good_ok h
+  rw [if_neg h5, if_neg hts]
+  by_cases h6 : (!(env.announcedFresh && isNewer σ a)) = true
+  · rw [if_pos h6]; exact good_ok h
+  rw [if_neg h6]
+  exact processStored_ok env (stored_inv h a) a
+
 /-! ### messages -/
 
 theorem limit_ok (env : Env) {σ : State} (h : Inv σ) (s : Session) :
@@ -230,15 +241,15 @@ theorem limit_ok (env : Env) {σ : State} (h : Inv σ) (s : Session) :
     rw [if_neg this]
     exact ⟨env.limited, _, rfl, key⟩
 
-theorem dispatch_ok (env : Env) {σ : State} (h : Inv σ) (remote : Nid) (peer : Session)
+theorem dispatch_ok (c : Code) (hc : c.msgLike) (env : Env) {σ : State} (h : Inv σ) (remote : Nid) (peer : Session)
     (hp : σ.sessions remote = some peer) (m : Msg) :
-    Good (dispatch Code.current env σ remote peer m) := by
+    Good (dispatch c env σ remote peer m) := by
   have hid : peer.id = remote := h.ids remote peer hp
   unfold dispatch
   cases m with
-  | announcement a => exact handleAnnouncement_ok env h a
+  | announcement a => exact handleAnnouncement_ok c hc env h a
   | subscribe since until_ =>
-    simp only [Code.current, Bool.false_and, Bool.false_eq_true, if_false]
+    simp only [hc.2, Bool.false_and, Bool.false_eq_true, if_false]
     refine good_ok (h.updSession remote _ hid ?_)
     intro fs aw hst rid hrid
     exact h.fetching remote peer fs aw hp hst rid hrid
@@ -258,8 +269,8 @@ theorem dispatch_ok (env : Env) {σ : State} (h : Inv σ) (remote : Nid) (peer :
       · rw [if_neg he]; exact good_ok h
     · exact good_ok h
 
-theorem handleMessage_ok (env : Env) {σ : State} (h : Inv σ) (remote : Nid) (m : Msg) :
-    Good (handleMessage Code.current env σ remote m) := by
+theorem handleMessage_ok (c : Code) (hc : c.msgLike) (env : Env) {σ : State} (h : Inv σ) (remote : Nid) (m : Msg) :
+    Good (handleMessage c env σ remote m) := by
   unfold handleMessage
   cases hs : σ.sessions remote with
   | none => exact good_ok h
@@ -273,17 +284,17 @@ theorem handleMessage_ok (env : Env) {σ : State} (h : Inv σ) (remote : Nid) (m
     · rw [if_pos hlim]; exact good_ok h1
     rw [if_neg hlim]
     have hid : peer.id = remote := h.ids remote peer hs
-    have toConn : Good (dispatch Code.current env
+    have toConn : Good (dispatch c env
         { ({ σ with buckets := b } : State) with sessions := upd σ.sessions remote (some peer.toConnected) }
         remote peer.toConnected m) := by
-      refine dispatch_ok env (h1.updSession remote peer.toConnected hid ?_) remote _ (by simp [upd_same]) m
+      refine dispatch_ok c hc env (h1.updSession remote peer.toConnected hid ?_) remote _ (by simp [upd_same]) m
       intro fs aw hst rid hrid
       simp only [Session.toConnected, SessState.connected.injEq] at hst
       obtain ⟨rfl, _⟩ := hst
       simp at hrid
     cases hst : peer.state with
     | disconnected => exact good_ok h1
-    | connected fs aw => exact dispatch_ok env h1 remote peer hs m
+    | connected fs aw => exact dispatch_ok c hc env h1 remote peer hs m
     | initial => exact toConn
     | attempted => exact toConn
 
@@ -319,9 +330,9 @@ theorem Inv.resetSession {σ : State} (h : Inv σ) (remote : Nid) (s' : Option S
     · simp only [upd_other _ hk] at hs2
       exact failFetches_other h remote k' s2 fs aw hk hs2 hst rid hrid
 
-theorem connectedInbound_ok {σ : State} (h : Inv σ) (remote : Nid) (host : Host) (ro p : Bool) :
-    Inv (connectedInbound σ remote host ro p) := by
-  unfold connectedInbound
+theorem connectedSessions_ok {σ : State} (h : Inv σ) (remote : Nid) (host : Host) (ro p : Bool) :
+    Inv (connectedSessions σ remote host ro p) := by
+  unfold connectedSessions
   cases hs : σ.sessions remote with
   | some s =>
     simp only
@@ -360,14 +371,51 @@ theorem disconnected_ok {σ : State} (h : Inv σ) (remote : Nid) : Inv (disconne
       · intro s1 e; simp at e
       · intro s1 fs aw e; simp at e
 
-theorem step_ok (env : Env) {σ : State} (h : Inv σ) (op : Op) : Good (step Code.current env σ op) := by
+theorem restarted_ok (σ : State) (cfg : List (Nid × Host × Bool)) : Inv (restarted σ cfg) := by
+  refine ⟨?_, ?_, ?_⟩
+  · intro k s hs
+    simp only [restarted] at hs
+    cases hf : cfg.find? (·.1 = k) with
+    | none => simp [hf] at hs
+    | some e =>
+      obtain ⟨p, ho, ro⟩ := e
+      simp only [hf, Option.some.injEq] at hs
+      subst hs
+      have := List.find?_some hf
+      simpa using this
+  · intro k s fs aw hs hst
+    simp only [restarted] at hs
+    cases hf : cfg.find? (·.1 = k) with
+    | none => simp [hf] at hs
+    | some e =>
+      obtain ⟨p, ho, ro⟩ := e
+      simp only [hf, Option.some.injEq] at hs
+      subst hs
+      simp at hst
+  · intro h t ht; simp [restarted] at ht
+
+theorem Code.fixed_msgLike : Code.fixed.msgLike := ⟨rfl, rfl⟩
+theorem Code.current_msgLike : Code.current.msgLike := ⟨rfl, rfl⟩
+
+/-- With the saturating subtraction the initial Subscribe can always be built. -/
+theorem initialSince_fixed (σ : State) : ∃ t, initialSince Code.fixed σ = some t := by
+  unfold initialSince
+  cases σ.lastOnline with
+  | none => exact ⟨_, rfl⟩
+  | some last => exact ⟨_, rfl⟩
+
+theorem step_ok (env : Env) {σ : State} (h : Inv σ) (op : Op) : Good (step Code.fixed env σ op) := by
   cases op with
-  | recv r m => exact handleMessage_ok env h r m
-  | connectIn r ho ro p => exact good_ok (connectedInbound_ok h r ho ro p)
+  | recv r m => exact handleMessage_ok Code.fixed Code.fixed_msgLike env h r m
+  | connectIn r ho ro p =>
+    obtain ⟨t, ht⟩ := initialSince_fixed σ
+    simp only [step, connectedInbound, ht]
+    exact good_ok (connectedSessions_ok h r ho ro p)
   | disconnect r => exact good_ok (disconnected_ok h r)
+  | restart cfg => exact good_ok (restarted_ok σ cfg)
 
 theorem run_ok (envs : Nat → Env) {σ : State} (h : Inv σ) (ops : List Op) (i : Nat) :
-    ∀ o, o ∈ run Code.current envs σ ops i → ∀ s, o ≠ .panic s := by
+    ∀ o, o ∈ run Code.fixed envs σ ops i → ∀ s, o ≠ .panic s := by
   induction ops generalizing σ i with
   | nil => intro o ho; simp [run] at ho
   | cons op ops ih =>
